@@ -7,6 +7,7 @@ BPM = "frequenz.sdk.timeseries.battery_pool._metric_calculator"
 PVM = "frequenz.sdk.microgrid._power_distributing._component_managers._pv_inverter_manager._pv_inverter_manager:PVManager"
 ALGC = "frequenz.sdk.microgrid._power_distributing._distribution_algorithm._battery_distribution_algorithm:BatteryDistributionAlgorithm"
 RBUF = "frequenz.sdk.timeseries._ringbuffer.buffer:OrderedRingBuffer"
+DSRC = "frequenz.sdk.microgrid._data_sourcing.microgrid_api_source:MicrogridApiSource"
 FEV = "frequenz.sdk.timeseries.formula_engine._formula_evaluator"
 FENG = "frequenz.sdk.timeseries.formula_engine._formula_engine"
 ACTM = "frequenz.sdk.actor._actor"
@@ -318,6 +319,28 @@ PROPS = {
                      "gap-list maintenance (_update_gaps/_cleanup_gaps/_remove_gap: in-place mutation of aliased Gap objects "
                      "while deleting) and window assembly over numpy/list slices are outside the verifier's subset: bounded only",
                      "MovingWindow's thin wrappers not under contract"],
+    ),
+    "C20": dict(
+        modules=["ds_source"],
+        contracts=[f"{DSRC}._update_streams", f"{DSRC}.add_metric"],
+        lemmas=[],
+        bounded=[dict(kind="native_script", name="MicrogridApiSource hand-over: exactly-once in-order delivery across subscription changes",
+                      module="native.explore_datasource")],
+        level="other",
+        explanation="PROVED (deductive, per call): add_metric ignores unknown components, a request naming an already subscribed "
+                    "channel changes nothing (no task restart, the running task is not asked to cancel), a new request is appended "
+                    "once behind the existing ones (which keep their order) and the component's streaming task is replaced by "
+                    "exactly one new pending task while the old one is asked to cancel. BOUNDED (never counted as proved): the "
+                    "whole-history part - exactly-once, in-order delivery on every subscribed stream while subscriptions arrive "
+                    "between, before and back-to-back with data messages - is explored with the real MicrogridApiSource, real "
+                    "channels and event loop and a scripted API client.",
+        assumptions=[EXTRACTION, "one component and one metric id in the proof (structural bound; the metric id is only a dict key there); "
+                     "component category lookup and channel names by assumed contract (the name is injective in namespace and start "
+                     "time for a fixed component and metric)",
+                     "_handle_data_stream (TaskGroup fan-out, asyncio.wait bookkeeping, cancellation at every await) is outside the "
+                     "verifier's subset: hand-over across cancel/recreate is covered only by the bounded exploration (meter category, "
+                     "two metrics, two namespaces, <= 3 messages, 0/1/3/20 loop iterations between events)",
+                     "DataSourcingActor._run and the registry are thin wrappers, not under contract"],
     ),
     "C05": dict(
         modules=["fe_steps"],
